@@ -1,19 +1,18 @@
 SPECIFICATION Spec
 CONSTANTS
-  MaxOps = 4
+  MaxOps = 3
   SplitPairs = FALSE
   RenameTwice = FALSE
   NonRecDirs = FALSE
   NonRecCross = FALSE
-  B2B = TRUE
-  WithRoot = TRUE
-  InodeReuse = FALSE
-  StickyCreated = FALSE
+  B2B = FALSE
+  WithRoot = FALSE
+  InodeReuse = TRUE
+  StickyCreated = TRUE
   ViewSkipInCreatedRemoved = FALSE
-  RecModes = {TRUE, FALSE}
+  RecModes = {TRUE}
 INVARIANT Xlat_ReplicaMatches
 INVARIANT Xlat_RenameIsOneMovedEvent
 INVARIANT Xlat_MoveInOutIsCreatedDeleted
 INVARIANT FSEvents_NonRecursiveNothingBelowChildren
-INVARIANT Xlat_RootRemovedStops
 CHECK_DEADLOCK FALSE
